@@ -28,10 +28,10 @@ Step ==
               /\ Check("C19:residual_orthogonal_to_polynomials", Ev.n <= Ev.order + 1 \/ Ev.qdot <= 64)
               /\ Check("C19:detrend_idempotent", Ev.qidem <= 64)
               /\ Check("C19:polynomial_detrends_to_zero", Ev.qpoly <= 64)
-         [] Ev.t = "detrend32" ->        \* single-precision samples: the residual of exactly those numbers (7e-8 of slack for the float32 idempotence round trip)
-              /\ Check("C19:residual_orthogonal_to_polynomials", Ev.n <= Ev.order + 1 \/ Ev.qdot <= 64)
-              /\ Check("C19:detrend_idempotent", Ev.qidem <= 256)
-              /\ Check("C19:polynomial_detrends_to_zero", Ev.qpoly <= 256)
+         [] Ev.t = "detrend32" ->        \* single-precision samples: the residual comes back in single precision, "up to rounding" is 8 float32 epsilons (1e-6)
+              /\ Check("C19:residual_orthogonal_to_polynomials", Ev.n <= Ev.order + 1 \/ Ev.qdot <= 1024)
+              /\ Check("C19:detrend_idempotent", Ev.qidem <= 1024)
+              /\ Check("C19:polynomial_detrends_to_zero", Ev.qpoly <= 1024)
          [] Ev.t = "rms" ->
               /\ Check("C19:get_rms_is_the_integral_for_every_band_asked", Ev.qedge <= 4)
               /\ Check("C19:band_rms_additive_in_power", Ev.qadd <= 64)
